@@ -359,7 +359,7 @@ def time_grid(chk, quick, zone=None):
 # ---------------------------------------------------------------------------
 # (2) generated filters over generated calendars
 
-SUMMARIES = ["Meeting with Bob", "bob", "BOB", "Lunch", "Déjeuner", "会議"]
+SUMMARIES = ["Meeting with Bob", "bob", "BOB", "Lunch", "Déjeuner", "会議", "DÉJEUNER", "déjeuner", "école", "ÉCOLE"]
 CATS = [["Work"], ["work", "Travel"], ["Home"]]
 
 
@@ -381,6 +381,10 @@ def gen_component(rng, i):
         lines.append("X-CUSTOM:%s" % rng.choice(["one", "ONE", "two"]))
     if typ == "VTODO" and rng.random() < 0.5:
         lines.append("CREATED" + tval(rng.randrange(0, 6), "utc"))
+    if rng.random() < 0.3:
+        # values that are "falsy" in Python: zero and the empty text are values all the same
+        lines.append(rng.choice(["PRIORITY:0", "SEQUENCE:0", "X-EMPTY:", "PRIORITY:5"] +
+                                (["PERCENT-COMPLETE:0"] if typ == "VTODO" else [])))
     subs = []
     if typ in ("VEVENT", "VTODO") and rng.random() < 0.35:
         subs.append({"type": "VALARM", "lines": ["ACTION:DISPLAY", "TRIGGER:-PT15M",
@@ -394,7 +398,8 @@ def gen_tm(rng, texts):
 
 
 def gen_propf(rng):
-    name = rng.choice(["SUMMARY", "CATEGORIES", "LOCATION", "ATTENDEE", "X-CUSTOM", "DTSTART", "CREATED", "X-NONE"])
+    name = rng.choice(["SUMMARY", "CATEGORIES", "LOCATION", "ATTENDEE", "X-CUSTOM", "DTSTART", "CREATED", "X-NONE",
+                       "PRIORITY", "X-EMPTY", "SEQUENCE", "PERCENT-COMPLETE"])
     pf = {"name": name}
     r = rng.random()
     if r < 0.2:
@@ -403,7 +408,7 @@ def gen_propf(rng):
         s = rng.randrange(0, 5)
         pf["tr"] = (s, s + rng.randrange(1, 4))
     elif name in ("SUMMARY", "CATEGORIES", "LOCATION", "X-CUSTOM") and r < 0.75:
-        pf["tms"] = [gen_tm(rng, {"SUMMARY": ["bob", "Bob", "Meeting with Bob", "Lunch", "déjeuner", "会議", "x"],
+        pf["tms"] = [gen_tm(rng, {"SUMMARY": ["bob", "Bob", "Meeting with Bob", "Lunch", "déjeuner", "会議", "x", "DÉJEUNER", "école", "École"],
                                   "CATEGORIES": ["work", "Work", "Travel", "ork"],
                                   "LOCATION": ["room 1", "Room 1", "Berlin", "oom"],
                                   "X-CUSTOM": ["one", "ONE", "two"]}[name])
